@@ -4,7 +4,7 @@ import numpy as np
 import gens, floatcorr
 
 GEN = ['numeric']
-LEAN_MODULES = ['XfabVerif.Proofs.C09']
+LEAN_MODULES = ['XfabVerif.Proofs.C09', 'XfabVerif.Proofs.C09Extra']
 LEAN_DRIVER_MODULES = ['XfabVerif.Gen.FloatDispatch']
 RULE = ("g directions uniform on the sphere scaled to sin(theta), 2theta uniform in (0.5,150) deg, chi and wedge uniform in [-0.5,0.5] rad "
         "(both non-zero in 1/3 of the cases, both zero in 1/6); cases within 1e-6 (relative) of tangency excluded from the count claim; "
